@@ -48,6 +48,9 @@ def targets(ctx):
     # scale-dependent shapes: chunks larger than one and than two 32 KiB scan buffers, exactly one buffer, one byte more
     for c in (Cfg(0, b"", 0, 3, 1), Cfg(2, b"", 0, 1, 1)):
         out.append(("ref:big:%s" % c.name(), universe.big_file(c, ctx.seed)[0], False))
+    # ... and big chunks whose content repeats with a period dividing the buffer size (padding, ramps, zeros): what a stale
+    # buffer holds is then exactly what the missing part of the file would have held
+    out.append(("ref:big:periodic:c0", universe.big_periodic_file(Cfg(0, b"", 0, 3, 1), ctx.seed)[0], False))
     # detached twins of two of them (only the dictionary is scanned)
     for (w, c), f in list(zip(specs, files))[2:4]:
         out.append(("lib:%s:%s:detached" % (w, c.name()), universe.detach(f), True))
@@ -104,7 +107,10 @@ def states_big(base, p):
         z = bytearray(base); z[off:off + ln] = bytes(ln); out.append(("zero%d" % i, bytes(z)))
         for q in sorted({0, ln - 1} | {k for k in range(universe.BUF - 1, ln, universe.BUF)} | {k for k in range(universe.BUF, ln, universe.BUF)}):
             z = bytearray(base); z[off + q] ^= 0x40; out.append(("flip%d@%d" % (i, q), bytes(z)))
-    for n in universe.seam_offsets(p):
+    cuts = set(universe.seam_offsets(p))
+    for off, ln in zckref.extents(p):
+        cuts.update(off + k for k in range(4096, ln, 12288))       # and inside every buffer pass of every chunk
+    for n in sorted(cuts):
         if p.header_len <= n < len(base):
             out.append(("trunc=%d" % n, bytes(base[:n])))
     out.append(("overlong+3", bytes(base) + b"\xff" * 3))
